@@ -11,9 +11,11 @@ pub mod c02;
 pub mod c03;
 pub mod c04;
 pub mod c10;
+pub mod c11;
 pub mod c12;
 pub mod c13;
 pub mod c14;
+pub mod c15;
 pub mod c16;
 
 pub const ALL: &[Prop] = &[
@@ -22,8 +24,10 @@ pub const ALL: &[Prop] = &[
     Prop { id: "C03", run: c03::run, parts: c03::parts },
     Prop { id: "C04", run: c04::run, parts: c04::parts },
     Prop { id: "C10", run: c10::run, parts: c10::parts },
+    Prop { id: "C11", run: c11::run, parts: c11::parts },
     Prop { id: "C12", run: c12::run, parts: c12::parts },
     Prop { id: "C13", run: c13::run, parts: c13::parts },
     Prop { id: "C14", run: c14::run, parts: c14::parts },
+    Prop { id: "C15", run: c15::run, parts: c15::parts },
     Prop { id: "C16", run: c16::run, parts: c16::parts },
 ];
